@@ -524,6 +524,36 @@ def scenarios(ctx, workdir):
     serve_check(ctx, env, d, 'scenario-2')
     ctx.nontriv(('scenario', 2))
     env.close()
+    # S4: the key of an indexed encrypted file is deleted, then an unrelated key is added (SQLite hands the freed primary key to
+    # it): no link row may survive the deletion, and the new key belongs to no file
+    env = AppEnv(os.path.join(workdir, 'scenario4'), streams=(), copy_media=True)
+    logging.disable(logging.CRITICAL)
+    d = Driver(ctx, env)
+    r = d.add_stream('alpha', 'Alpha')
+    alpha = (r.get_json(silent=True) or {}).get('id')
+    for name, kind in (('clip_v', 'v'), ('clip_e', 'e')):
+        r = d.upload(alpha, name, kind)
+        d.index((r.get_json(silent=True) or {}).get('pk'))
+    st4 = d.state()
+    for step, (what, arg) in enumerate([('delete', None), ('add', '00112233445566778899aabbccddeeff'), ('add', 'ffeeddccbbaa99887766554433221100')]):
+        if what == 'delete':
+            linked = [l[1] for l in st4[4]]
+            if not linked:
+                ctx.dist('scenario4:no-key-link-after-indexing')
+                break
+            r = d.delete_key(linked[0])
+        else:
+            r = d.add_key(arg, '0123456789abcdef0123456789abcdef')
+        ctx.count('http:scenario')
+        if r.status_code >= 500:
+            ctx.violation('scenario 4, step %d: %s' % (step + 1, d.log[-1]), {'history': list(d.log)})
+        st_now = d.state()
+        oracle(ctx, st_now, 'scenario 4 step %d (%s)' % (step + 1, d.log[-1]), {'history': list(d.log)})
+        if what == 'add' and any(l[1] in [k[0] for k in st_now[3] if k not in st4[3]] for l in st_now[4]):
+            ctx.violation('scenario 4: after %s a media file is linked to the key that was just added' % d.log[-1], {'history': list(d.log)})
+    else:
+        ctx.nontriv(('scenario', 4))
+    env.close()
     # S3: two multi-period streams over the same source; a track is dropped from a Period of the SECOND one (whose adaptation-set
     # primary keys differ from its track ids): exactly that adaptation set goes, the first stream keeps all of its own
     env = AppEnv(os.path.join(workdir, 'scenario3'), streams=(), copy_media=True)
